@@ -163,14 +163,16 @@ theorem chain_matches_spec_partial (fl : Flags) (hd : fl.dotall = true) (hw : fl
 
 
 open YaraModel.ReVm YaraModel.ReEmit in
-/-- `vm_sound_partial`: soundness of the bytecode VM on emitted code, for the hex fragment WITHOUT jumps (bytes, `??` and
-    nibble masks, `~` negations, concatenation, alternatives nested to any depth — the ε-loop-free fragment).  For ALL such
-    patterns, ALL buffers and start positions, any nocase / dot-all flags, exhaustive or first-match mode: every length the
-    Lean model of `yr_re_exec` (validated against the C function on the real bytecode by the correspondence run) reports on
-    the code produced by the Lean model of `_yr_re_emit` (validated byte-for-byte against `yr_re_ast_emit_code`) is a length
-    the specification admits at that position.
-    Full statement aimed at (not yet proved): the same for jumps `[n-m]` (REPEAT_ANY with its `rc` counter), for backward
-    code, for the fast matcher `yr_re_fast_exec`, and the converse inclusion (completeness). -/
+/-- `vm_sound_partial`: soundness of the bytecode VM on emitted code, for the WHOLE hex fragment (bytes, `??` and nibble
+    masks, `~` negations, jumps `[n]` `[n-m]` with m < 65536, concatenation, alternatives nested to any depth — the ε-loop-free
+    fragment).  For ALL such patterns, ALL buffers and start positions, any nocase / dot-all flags, exhaustive or first-match
+    mode: every length the Lean model of `yr_re_exec` (validated against the C function on the real bytecode by the
+    correspondence run) reports on the code produced by the Lean model of `_yr_re_emit` (validated byte-for-byte against
+    `yr_re_ast_emit_code`) is a length the specification admits at that position.  The proof goes through an abstract machine
+    with the three states of a REPEAT_ANY fiber (arriving / waiting for a character / just consumed) and a continuation
+    language per instruction address.
+    Full statement aimed at (not yet proved): the same for backward code and for the fast matcher `yr_re_fast_exec`, and the
+    converse inclusion (completeness: every admissible length is reported in exhaustive mode). -/
 theorem vm_sound_partial (r : Re) (hf : HexFrag r) (hsz : clen r < 32000) (buf : Bytes) (start : Nat) (hst : start ≤ buf.size)
     (fl : VmFlags) (hw : fl.wide = false) (hb : fl.backwards = false) (hsc : fl.scan = false) (fuel : Nat) (m : Int) (c : List Nat)
     (h : exec { code := (emitCode false r).toArray, entry := 0, buf := buf, start := start, fl := fl, syncFuel := fuel } = .done m c) :
@@ -179,7 +181,7 @@ theorem vm_sound_partial (r : Re) (hf : HexFrag r) (hsz : clen r < 32000) (buf :
   vm_sound_hex r hf hsz buf start hst fl hw hb hsc fuel m c h
 
 open YaraModel.ReVm YaraModel.ReEmit in
-/-- instance: `41 ( 42 | ?3 44 ) ~45` on `41 13 44 46`: the VM run on the emitted code reports exactly length 4 -/
-example : exec { code := (emitCode false (.cat (.lit 0x41) (.cat (.alt (.lit 0x42) (.cat (.masked 0x03 0x0F) (.lit 0x44))) (.notLit 0x45)))).toArray, entry := 0, buf := #[0x41, 0x13, 0x44, 0x46], start := 0, fl := { exhaustive := true } } = .done 4 [4] := by decide
+/-- instance: `41 ( 42 | ?3 44 ) [1-2] ~45` on `41 13 44 00 00 46`: the VM run on the emitted code reports lengths 6 and 5 -/
+example : exec { code := (emitCode false (.cat (.lit 0x41) (.cat (.alt (.lit 0x42) (.cat (.masked 0x03 0x0F) (.lit 0x44))) (.cat (.rangeAny 1 2 false) (.notLit 0x45))))).toArray, entry := 0, buf := #[0x41, 0x13, 0x44, 0x00, 0x00, 0x46], start := 0, fl := { exhaustive := true, dotall := true } } = .done 6 [5, 6] := by decide
 
 end YaraModel.C02
